@@ -46,8 +46,8 @@ fn pph<O: AsRef<[u8]>>(h: &PerPeerHeader<O>) -> String {
     let ts: DateTime<Utc> = h.timestamp();
     let tss = if ts == DateTime::<Utc>::MIN_UTC { "MIN".to_string() }
               else { format!("{}.{}", ts.timestamp(), ts.timestamp_subsec_nanos()) };
-    format!("{}/{}/{}/{}/{}/{}/{}/{}/{}{}{}{}{}",
-        u8::from(h.peer_type()), h.flags(), hex(h.distinguisher()), addr(h.address()), h.asn().into_u32(), hex(&h.bgp_id()),
+    format!("{}.{:?}/{}/{}/{}/{}/{}/{}/{}/{}{}{}{}{}",
+        u8::from(h.peer_type()), h.peer_type(), h.flags(), hex(h.distinguisher()), addr(h.address()), h.asn().into_u32(), hex(&h.bgp_id()),
         tss,
         match h.rib_type() { routecore::bmp::message::RibType::AdjRibIn => 0, routecore::bmp::message::RibType::AdjRibOut => 1,
                              routecore::bmp::message::RibType::LocRib => 2 },
@@ -131,13 +131,13 @@ fn one(bytes: &[u8]) -> String {
             out.push_str(&g("sent", || hex(m.bgp_open_sent().as_ref())));
             out.push_str(&g("rcvd", || hex(m.bgp_open_rcvd().as_ref())));
             out.push_str(&g("both", || { let (s, r) = m.bgp_open_sent_rcvd(); format!("{}/{}", hex(s.as_ref()), hex(r.as_ref())) }));
-            out.push_str(&g("tlvs", || capped(m.information_tlvs(), |t| format!("{}:{}", u16::from(t.typ()), hex(t.value())))));
+            out.push_str(&g("tlvs", || capped(m.information_tlvs(), |t| format!("{}/{:?}:{}", u16::from(t.typ()), t.typ(), hex(t.value())))));
             out.push_str(&g("cfg", || { let _ = m.pph_session_config(); let _ = m.session_config(); let _ = m.supported_protocols(); "ok".into() }));
         }
         Message::InitiationMessage(m) => {
             out.push_str("IN");
             out.push_str(&head);
-            out.push_str(&g("tlvs", || capped(m.information_tlvs(), |t| format!("{}:{}", u16::from(t.typ()), hex(t.value())))));
+            out.push_str(&g("tlvs", || capped(m.information_tlvs(), |t| format!("{}/{:?}:{}", u16::from(t.typ()), t.typ(), hex(t.value())))));
         }
         Message::TerminationMessage(m) => {
             out.push_str("TM");
